@@ -4,7 +4,7 @@ From Coq Require Import List ZArith Bool String Lia.
 From RG.Base Require Import Outcome GoInt GoSlice.
 From RG.Engine Require Import TruncateSpec.
 From RG.Filters Require Import FilterIR Totality TotalityExt.
-From RGW Require Import Gen_FilterTotal Gen_FilterTotal2 Inst_C07 Gen_Truncate Gen_C15Extras Inst_Truncate.
+From RGW Require Import Gen_FilterTotal Gen_FilterTotal2 Gen_FilterEnums Inst_C07 Gen_Truncate Gen_C15Extras Inst_Truncate.
 Import ListNotations.
 Local Open Scope string_scope.
 
@@ -57,6 +57,30 @@ Theorem C07_unhandled_list_refuted : forall ac tg recur tf n f, access_safe tg a
   closure_run_on ac tg ["*ast.Comment"] recur true (ShList (S n)) (NcSlice f) tf = Ok tt.
 Proof. exact unhandled_list_crashes. Qed.
 Print Assumptions C07_unhandled_list_refuted.
+
+(* ... and so is the case for the match of a range-header / range-clause pattern (`$$` of `for $k, $v := range $x` is a
+   gogrep.PartialNode, which go/printer rejects): without it the run crashes on a file whose bytes are not readable *)
+Theorem C07_unhandled_partial_refuted : forall ac tg recur tf, access_safe tg ac = true -> ac_text ac = true ->
+  closure_run_on ac tg ["*ast.Comment"; "*gogrep.NodeSlice"; "*ast.FieldList"; "*ast.Field"] recur false ShNode NcPartial tf = Panic PExplicit /\
+  closure_run_on ac tg ["*ast.Comment"; "*gogrep.NodeSlice"; "*ast.FieldList"; "*ast.Field"] recur true ShNode NcPartial tf = Ok tt /\
+  closure_run_on ac tg ["*ast.Comment"; "*gogrep.NodeSlice"; "*gogrep.PartialNode"; "*ast.FieldList"; "*ast.Field"] recur false ShNode NcPartial tf = Ok tt.
+Proof. exact unhandled_partial_crashes. Qed.
+Print Assumptions C07_unhandled_partial_refuted.
+
+(* Object.Is(kind): every name the loader accepts (regenerated) has a predicate in the constructor's switch (regenerated); a name
+   let through by the loader without a case there is a nil function, called on the first identifier *)
+Theorem C07_object_is_total_for_every_accepted_name : forall n, In n gen_object_is_accepted -> enum_call gen_object_is_dispatch n = Ok tt.
+Proof. exact object_is_call_total. Qed.
+Print Assumptions C07_object_is_total_for_every_accepted_name.
+
+Theorem C07_dropped_object_kind_crashes :
+  enum_call ["Func"; "Var"; "Const"; "TypeName"; "Label"; "PkgName"; "Builtin"] "Nil" = Panic PNilDeref /\
+  enum_dispatch_okb ["Func"; "Var"; "Const"; "TypeName"; "Label"; "PkgName"; "Builtin"; "Nil"]
+                    ["Func"; "Var"; "Const"; "TypeName"; "Label"; "PkgName"; "Builtin"] = false /\
+  enum_dispatch_okb ["Func"; "Var"; "Const"; "TypeName"; "Label"; "PkgName"; "Builtin"; "Nil"]
+                    ["Func"; "Var"; "Const"; "TypeName"; "Label"; "PkgName"; "Builtin"; "Nil"] = true.
+Proof. exact enum_call_dropped_crashes. Qed.
+Print Assumptions C07_dropped_object_kind_crashes.
 
 (* truncation (C15's theorem, re-proved here against the same regenerated body): any TruncateLen, any text *)
 Theorem C07_truncate_total : forall s L, go_input s L -> exists r, truncateText s L = Ok r.
